@@ -156,6 +156,22 @@ def build_stream(case: dict) -> tuple[bytes, list[bytes]]:
     return b"".join(parts) + case["tail"].encode("latin-1").replace(b"\n", b""), parts
 
 
+def _lines_after_overlong(data: bytes, limit: int) -> list[str] | None:
+    """The decodable complete lines that follow the first over-long line (None if there is no over-long line)."""
+    pieces = data.split(b"\n")
+    pieces.pop()
+    for idx, piece in enumerate(pieces):
+        if len(piece) > limit:
+            rest = []
+            for later in pieces[idx + 1 :]:
+                try:
+                    rest.append((later + b"\n").decode("utf-8"))
+                except UnicodeDecodeError:
+                    pass
+            return rest
+    return None
+
+
 def _expected(data: bytes, limit: int) -> list[tuple[str, object]]:
     """Reference splitter: what successive reads must give."""
     out: list[tuple[str, object]] = []
@@ -250,6 +266,7 @@ def _run_read(case: dict) -> Outcome:
                 if pending is not None:
                     break
         reader.feed_eof()
+        after = _lines_after_overlong(data, limit)
         for _ in range(len(expected) + 3):
             if pending is None:
                 if len(results) >= len(expected):
@@ -261,6 +278,21 @@ def _run_read(case: dict) -> Outcome:
             if pending is not None:
                 pending.cancel()
                 return fail("read-hangs-after-eof", f"stream {data[:80]!r}: a read is still pending after EOF was fed")
+        if after is not None and len(results) >= len(expected):
+            # whether reads recover after an over-long line is not specified - but whatever they return must be a line
+            # of the stream that follows it, in order: never a fragment, never something the stream does not contain
+            cursor = 0
+            for _ in range(len(after) + 4):
+                status, obs = await attempt()
+                if status == "leak":
+                    return fail(f"read-leak:{env.exc_sig(obs)}", f"stream with an over-long line: a later read raised {obs!r}")
+                if status != "ok":
+                    continue
+                while cursor < len(after) and after[cursor] != obs:
+                    cursor += 1
+                if cursor >= len(after):
+                    return fail("read-returns-non-line-after-overlong", f"after the over-long line a read returned {obs[:60]!r}..., which is not one of the following lines of the stream {[a[:20] for a in after]!r}")
+                cursor += 1
         return None
 
     bad = env.run(go())
